@@ -3,11 +3,11 @@ from __future__ import annotations
 
 import ast
 
-from sa.astx import call_name, names_read, src, statements
+from sa.astx import call_name, src, statements
 from sa.domains import escaper_problems, replace_chain
 from sa.selftest import Mutant, Silent
 from sa.source import AnalysisError
-from sa.props._lib_i import sect, COMPAT, BlockRaised, NotPure, Raised, eval_block, interp, local_const_env, module_env, peval, words
+from sa.props._lib_i import sect, COMPAT, BlockRaised, Raised, eval_block, interp, module_env, words
 
 PROPERTY = "C46"
 EP = "internet/endpoints.py"
